@@ -51,6 +51,9 @@ pub enum SetSpec {
     ResultOf(F),
     /// raw set that depends on spare variables: `eval_node` on an *open* formula over {x}
     Open(F),
+    /// union of `n` pseudo-random states (all colours): a BDD of thousands of nodes whose text form
+    /// exceeds the buffers of the compression layer (only generated on benchmark-size networks)
+    Large(u64, u64),
 }
 
 #[derive(Clone, Debug, PartialEq)]
@@ -110,6 +113,7 @@ impl SetSpec {
             SetSpec::Dnf(s) => json!({"dnf_seed": s}),
             SetSpec::ResultOf(f) => json!({"result_of": f.to_json(), "text": f.render()}),
             SetSpec::Open(f) => json!({"open": f.to_json(), "text": f.render()}),
+            SetSpec::Large(seed, n) => json!({"large_seed": seed, "states": n}),
         }
     }
     pub fn from_json(v: &Value) -> Result<SetSpec, String> {
@@ -124,6 +128,9 @@ impl SetSpec {
         }
         if let Some(f) = v.get("open") {
             return Ok(SetSpec::Open(F::from_json(f)?));
+        }
+        if let Some(seed) = v.get("large_seed").and_then(|s| s.as_u64()) {
+            return Ok(SetSpec::Large(seed, v["states"].as_u64().unwrap_or(100)));
         }
         Err("set spec".to_string())
     }
@@ -289,6 +296,13 @@ pub fn generate(rng: &Rng, world: &World, tier: &str) -> C16 {
             };
             sets.push((l.to_string(), spec));
         }
+        if crate::c04::big_model() {
+            for (i, l) in ["big_1", "big_2"].iter().enumerate() {
+                if i == 0 || r.chance(1, 2) {
+                    sets.push((l.to_string(), SetSpec::Large(r.next_u64() % 1_000_000, r.range(1500, 6000) as u64)));
+                }
+            }
+        }
         // labels are arbitrary strings: a label with a path separator (a zipped results folder that
         // contains an `old/` copy) must stay distinct from the top-level label of the same base name
         if !sets.is_empty() && r.chance(1, 3) {
@@ -345,8 +359,9 @@ pub fn generate(rng: &Rng, world: &World, tier: &str) -> C16 {
         }
     } else {
         // fault-position enumeration on this workload
-        let stride_bytes = if thorough { 1 } else { r.range(3, 17) as u64 };
-        let stride_calls = if thorough { 1 } else { r.range(1, 3) as u64 };
+        let big = crate::c04::big_model();
+        let stride_bytes = if big { r.range(1500, 4000) as u64 } else if thorough { 1 } else { r.range(3, 17) as u64 };
+        let stride_calls = if thorough && !big { 1 } else { r.range(1, 3) as u64 };
         let sweeps: Vec<Op> = vec![
             Op::SweepSave { kind: "eio_w".into(), stride: stride_calls },
             Op::SweepSave { kind: "enospc".into(), stride: stride_bytes },
@@ -358,9 +373,9 @@ pub fn generate(rng: &Rng, world: &World, tier: &str) -> C16 {
             Op::SweepLoad { kind: "eio_seek".into(), stride: stride_calls },
             Op::SweepLoad { kind: "shortr".into(), stride: 1 },
             Op::SweepDamage { kind: "truncate".into(), stride: stride_bytes },
-            Op::SweepDamage { kind: "flip".into(), stride: if thorough { 1 } else { r.range(5, 41) as u64 } },
+            Op::SweepDamage { kind: "flip".into(), stride: if big { r.range(20000, 60000) as u64 } else if thorough { 1 } else { r.range(5, 41) as u64 } },
         ];
-        if thorough {
+        if thorough && !big {
             ops.extend(sweeps);
         } else {
             let mut s = sweeps;
@@ -433,6 +448,27 @@ pub fn build_set(graph: &SymbolicAsyncGraph, spec: &SetSpec) -> Result<Gcv, Stri
             Ok(GraphColoredVertices::new(b, ctx).intersect(graph.unit_colored_vertices()))
         }
         SetSpec::ResultOf(f) => mc::model_check_formula_dirty(&f.render(), graph),
+        SetSpec::Large(seed, n) => {
+            let mut rng = Rng::new(*seed);
+            let ctx = graph.symbolic_context();
+            let vs = ctx.bdd_variable_set();
+            let state = ctx.state_variables().clone();
+            // balanced union of minterms
+            let mut layer: Vec<biodivine_lib_bdd::Bdd> = Vec::new();
+            for _ in 0..*n {
+                let vals: Vec<(biodivine_lib_bdd::BddVariable, bool)> = state.iter().map(|v| (*v, rng.chance(1, 2))).collect();
+                layer.push(vs.mk_conjunctive_clause(&biodivine_lib_bdd::BddPartialValuation::from_values(&vals)));
+            }
+            while layer.len() > 1 {
+                let mut next = Vec::new();
+                for pair in layer.chunks(2) {
+                    next.push(if pair.len() == 2 { pair[0].or(&pair[1]) } else { pair[0].clone() });
+                }
+                layer = next;
+            }
+            let b = layer.pop().unwrap_or_else(|| vs.mk_false());
+            Ok(GraphColoredVertices::new(b, ctx).intersect(graph.unit_colored_vertices()))
+        }
         SetSpec::Open(f) => {
             if graph.symbolic_context().num_extra_state_variables() == 0 {
                 return Ok(graph.mk_empty_colored_vertices());
@@ -1279,6 +1315,14 @@ pub fn shrinks(sc: &C16) -> Vec<C16> {
         out.push(s);
     }
     for i in 0..sc.sets.len() {
+        if let SetSpec::Large(seed, n) = &sc.sets[i].1 {
+            if *n > 64 {
+                let mut s = sc.clone();
+                s.sets[i].1 = SetSpec::Large(*seed, n / 2);
+                out.push(s);
+            }
+            continue;
+        }
         if !sc.cli_form && !matches!(sc.sets[i].1, SetSpec::Empty | SetSpec::Unit) {
             for repl in [SetSpec::Empty, SetSpec::Unit] {
                 let mut s = sc.clone();
